@@ -3,7 +3,10 @@
 (* One case = one dataset + one choice of data_vars / ref_var, run through every operator    *)
 (* (harness/workers/local_worker.py):                                                        *)
 (*   H, W, L   raster shape, number of data layers (in data_vars order)                      *)
-(*   layers    L x H x W integers (NaN = -99), layer values in units of the case's scale     *)
+(*   layers    L x H x W integers (NaN = -99), layer values in units of the case's scale; for *)
+(*             the near-tie datasets (values like 1e6 and 1e6+1, 0 and 5e-9) the RANK of the   *)
+(*             value among all values of the dataset: order and equality are all the judged    *)
+(*             operators (c.funcs) depend on                                                   *)
 (*   ref       H x W integers: the reference layer; refc: the same in units of the layer codes *)
 (*   strides   L x <<sy, sx>>: element strides of the layers as handed to the library        *)
 (*   iter, iterK  cell ids in the order np.nditer really delivers them for these layouts with  *)
@@ -102,11 +105,13 @@ CombClause(c) ==
 Order == <<"max", "mean", "median", "min", "std", "sum", "lesser_frequency", "equal_frequency",
            "greater_frequency", "lowest_position", "highest_position", "rank">>
 
+\* c.funcs = the operators judged on this case, a subsequence of Order (the near-tie datasets, whose values
+\* are carried by RANK, are judged on the order-based operators only); c.haspop = 1 when popularity was run
 RECURSIVE FirstBad(_, _)
 FirstBad(c, i) ==
-  IF i > Len(Order) THEN "ok"
-  ELSE LET cl == FClause(c, Order[i]) IN
-       IF cl # "ok" THEN Order[i] \o ":" \o cl ELSE FirstBad(c, i + 1)
+  IF i > Len(c.funcs) THEN "ok"
+  ELSE LET cl == FClause(c, c.funcs[i]) IN
+       IF cl # "ok" THEN c.funcs[i] \o ":" \o cl ELSE FirstBad(c, i + 1)
 
 \* exhaustive rasters: TLC itself asserts that the raster carries the COMPLETE case space
 \* (every tuple over {0,1,2,NaN}^L with every reference value 1..L), c.full = 1
@@ -120,6 +125,7 @@ Clause(c) ==
   ELSE IF ~FreqSumOK(c) THEN "frequencies_do_not_sum_to_layer_count"
   ELSE LET b == CombClause(c) IN
   IF b # "ok" THEN "combine:" \o b
+  ELSE IF c.haspop = 0 THEN "ok"
   ELSE LET d == PopClause(c) IN
   IF d # "ok" THEN "popularity:" \o d ELSE "ok"
 
@@ -138,7 +144,7 @@ PredictedBy(c, f, order) ==
   ShapeOK(c, o) /\ \A p \in Cells(c) :
      LET s == Src(Lays(c), c.H, c.W, order, p[1], p[2]) IN
      REq(o.g[p[1] + 1][p[2] + 1], Def(f, Tuple(c, s[1], s[2]), RefFor(c, f, p[1], p[2])))
-AllPredicted(c, order) == \A i \in 1..Len(Order) : PredictedBy(c, Order[i], order)
+AllPredicted(c, order) == \A i \in 1..Len(c.funcs) : PredictedBy(c, c.funcs[i], order)
 
 Extra(c, cl) ==
   IF ~IterOK(c) THEN "drift_nditer_order_differs_from_model"
